@@ -34,7 +34,7 @@ func TestVerif_C13_race(t *testing.T) {
 			continue // the --tail pass only runs the snapshot-trimming scenario
 		}
 		// the deterministic scenario bodies, free-running
-		for _, body := range []func() string{c13S1(0), c13S1(3), c13S2, c13S3, c13S4, c13S5} {
+		for _, body := range []func() string{c13S1(0), c13S1(3), c13S1Old, c13S2, c13S3, c13S4, c13S5} {
 			out := body()
 			r.Eval()
 			if schedBadPrefix(out) != "" {
